@@ -216,6 +216,7 @@ def cases(tier, seed):
     k = seed % len(EVENTS)
     for ev in [None] + EVENTS[k:] + EVENTS[:k]:
         out.append({"part": "hb256", "hist": [] if ev is None else [list(ev)]})
+    out.append({"part": "reboot"})
     P = 2 if tier == "quick" else 3
     for which in ("heartbeat", "bootup"):
         for hbs in ([], [5], [0], [5, 4], [5, 0], [0, 5]):
@@ -249,7 +250,45 @@ def _merge(res, st, case):
     st.outcome("bfs closed" if res["closed"] else f"bfs depth {res['depth']}")
 
 
+def run_reboot(case, st):
+    """A device that reboots on a reset command and sends its boot-up message at once (synchronous interface: the boot-up
+    is processed while the master is still inside send_command): the master's view is what the LAST frame says."""
+    for who in ("m5", "mb"):
+        for how, arg in (("cmd", 129), ("cmd", 130), ("name", "RESET"), ("name", "RESET COMMUNICATION")):
+            for before in ((), (("hb", 5, 5),), (("cmd", "m5", 1), ("hb", 5, 5))):
+                w = World()
+                for ev in before:
+                    apply(w, ev)
+
+                def app(cid, data, ts, _w=w):
+                    if len(data) >= 2 and data[0] in (129, 130) and data[1] in (0, 5):
+                        _w.l5.nmt.state = "RESET"             # the device reboots: boot-up message goes out
+                w.s.subscribe(0, app)
+                st.evaluations += 1
+                st.nontrivial.add(("reboot", who, how, arg, len(before)))
+                rc = dict(case, who=who, how=how, arg=arg, before=[list(e) for e in before])
+                n0 = len(w.bus.log)
+                try:
+                    if how == "cmd":
+                        w.objs()[who].send_command(arg)
+                    else:
+                        w.objs()[who].state = arg
+                except Exception as e:  # noqa: BLE001
+                    st.violation(f"C11:reboot:raises:{type(e).__name__}", rc, "command sent", repr(e)[:100])
+                    continue
+                frames = [(src, cid, bytes(d)) for (src, cid, d, rem, ext) in w.bus.log[n0:]]
+                if ("slave", 0x705, b"\x00") not in frames:
+                    raise simenv.HarnessError(f"the rebooting device sent no boot-up message: {frames}")
+                got = w.r5.nmt._state
+                if got != R.PRE_OPERATIONAL:
+                    st.violation("C11:reboot:master-view-after-boot-up", rc, ("m5", R.PRE_OPERATIONAL), ("m5", got))
+                    continue
+                st.outcome("reboot ok")
+
+
 def run_case(case, st):
+    if case["part"] == "reboot":
+        return run_reboot(case, st)
     if case["part"] == "bfs":
         if "hist" in case:
             w = World()
